@@ -363,6 +363,7 @@ class Gen:
             self.predict(m1, d1, ignore=True)
             self.predict(m1, dm, ignore=True)
             self.predict(m1, ds[0], ignore=True)
+            self._second_restored(m1, base0)
         elif mode == "C03":
             self.store(m0)
             self.predict(m0, ds[0], ignore=True)
@@ -372,6 +373,7 @@ class Gen:
                 d = self.make_data(base0)
                 m1 = self.fit(m["fam"], d, profile=m["profile"], ignore=True)
                 self.predict(m1, ds[0], ignore=True)
+            self._refit_flipped(m0, base0, also_fresh=True)
         elif mode == "C04":
             self.predict(m0, ds[0], ignore=False)
             doc = self.store(m0)
@@ -382,6 +384,7 @@ class Gen:
             doc2 = self.store(m1)
             m2 = self.load(doc2)
             self.predict(m2, ds[0], ignore=False)
+            self._refit_flipped(m0, base0, also_fresh=False)
         elif mode == "C05":
             rec = self._reporting(base0, obs="present")
             rec["tgap"] = 0
@@ -394,6 +397,53 @@ class Gen:
             rec3 = dict(rec2, obs="partnan", tgap=0)
             self.emit("PREDICT_PAIR", m=m0, recipe=rec3, alter="partnan2", seq=True)
             self.cost += 4 * PRED_COST.get(self.models[m0]["fam"], 0.3)
+
+    def _refit_flipped(self, m0, base0, also_fresh):
+        """The same HourlyModel object fitted again on a baseline of the other GHI-ness; optionally a fresh model on the
+        same data right after it (same key: the two documents must agree)."""
+        m = self.models.get(m0)
+        if not m or m["fam"] != "hourly":
+            return
+        flip = {k: v for k, v in base0.items() if k not in ("defect", "src")}
+        flip["ghi"] = not bool(base0.get("ghi"))
+        if base0.get("src") == "sample":
+            flip["mid"] = 100 + base0["mid"]
+        self.pool["hourly"].append(flip)
+        d = self.make_data(flip)
+        self.fit("hourly", d, profile=m["profile"], ignore=True, mslot=m0, reuse=True, allow_abort=False)
+        if also_fresh:
+            d2 = self.make_data(flip)
+            self.fit("hourly", d2, profile=m["profile"], ignore=True, allow_abort=False)
+
+    def _second_restored(self, m1, base0):
+        """A second restored model of ANOTHER meter of the same family alive next to the first one; both predict."""
+        m = self.models.get(m1)
+        if not m or m["fam"] == "caltrack" or FIT_COST.get((m["fam"], m["profile"]), FIT_COST.get(m["fam"], 1)) > 4:
+            return
+        fam = m["fam"]
+        other = self._new_base(fam)
+        tries = 0
+        while (other.get("mid") == base0.get("mid") and other.get("src") == base0.get("src")) and tries < 5:
+            other = self._new_base(fam)
+            tries += 1
+        other = {k: v for k, v in other.items() if k != "defect"}
+        if P.needs_ghi(fam, m["profile"]):
+            other["ghi"] = True
+            if other.get("src") == "sample":
+                other.pop("src")
+                other["mid"] += 100
+        self.pool[fam].append(other)
+        db = self.make_data(other)
+        mb = self.fit(fam, db, profile=m["profile"], ignore=True, allow_abort=False)
+        docb = self.store(mb)
+        mb1 = self.load(docb, mslot=mb)
+        rb = self.make_data(self._reporting(other, obs="present", span="month" if not (
+            other.get("src") == "sample" and other["fam"] == "billing") else "partial"))
+        self.predict(mb1, rb, ignore=True)
+        ds = self._data_for(m1)
+        if ds:
+            self.predict(m1, ds[0], ignore=True)
+        self.predict(mb1, rb, ignore=True)
 
     # ------------------------------------------------------------------ picking
 
@@ -481,7 +531,7 @@ class Gen:
                     "make_reporting": 1.3},
             "C03": {"refit_key": 9, "refit_other": 2, "fit": 1.5, "fault": 2.5, "crash": 1.5, "predict": 0.6},
             "C04": {"new_model": 4, "predict_odd": 5, "make_baseline": 2.5, "fit": 2, "store_load_predict": 2,
-                    "fit_shared": 2},
+                    "fit_shared": 2, "refit_other": 4},
             "C05": {"pair": 9, "predict": 1.2, "make_reporting": 1.4, "store_load_predict": 1.5},
         }[mode]
         for k, v in mult.items():
